@@ -105,3 +105,86 @@ B('C17', 'formula-checked-rem', 'mithril-common/src/entities/signed_entity_confi
         None => stable_block_number,
     }
 }""", 'the rounding written with checked_rem (the refactoring of seed C17-1) with the CORRECT fall-back for a zero step')
+
+# ---------------------------------------------------------------- behaviour-preserving refactorings written by independent sub-agents
+# (each agent was given only the property text and a scratch worktree; every patch compiles and passes the crate's existing tests)
+BP('C01', 'rf-c01-1', 'rf-c01-1.diff',
+   'independent refactoring: Split ConcatenationProof::preliminary_verify (the non-BLS half of aggregate verification, used by both verify and batch_verify) into two new private helpers: check_lottery_indices_reach_quorum (per-signature check_indices call, index counting, uniqueness check, k-threshold check) and check_signers_m')
+BP('C01', 'rf-c01-2', 'rf-c01-2.diff',
+   'independent refactoring: SingleSignatureForConcatenation::check_indices (the m-bound and lottery-win check applied to every claimed index, reached from both ConcatenationProof::preliminary_verify and single-signature verification): the explicit `for &index in &self.indexes { .. }` loop body is extracted into a new private m')
+BP('C01', 'rf-c01-3', 'rf-c01-3.diff',
+   'independent refactoring: ConcatenationProof::batch_verify: the per-proof loop no longer discards the result of preliminary_verify and then re-collects the BLS signatures and verification keys with two hand-written iterator chains; it uses the (signatures, verification keys) pair that preliminary_verify already returns (coll')
+BP('C01', 'rf-c01-4', 'rf-c01-4.diff',
+   "independent refactoring: MerkleTreeBatchCommitment::verify_leaves_membership_from_batch_path (the check that every (verification key, stake) leaf of an aggregate signature is committed by the aggregate key). (a) The 'indices must be ordered' check `sorted_copy != proof.indices` (clone + sort_unstable + compare) is replaced ")
+BP('C02', 'rf-c02-1', 'rf-c02-1.diff',
+   'independent refactoring: ConcatenationClerk::select_valid_signatures_for_k_indices (the dedup/selection step of aggregation) is split into two private phases plus a predicate: is_valid_signature (the per-signature BLS+lottery verification that decides whether a signature is skipped), assign_indices_to_valid_signatures (phas')
+BP('C02', 'rf-c02-2', 'rf-c02-2.diff',
+   'independent refactoring: ConcatenationProof::aggregate_signatures (the concatenation aggregation entry point reached from Clerk::aggregate_signatures_with_type) is reshaped: the iterator chain `sigs.iter().map(|sig| lookup(..).map(|reg_party| ..)).collect::<Result<Vec<_>,_>>()?` that pairs every single signature with its re')
+BP('C02', 'rf-c02-3', 'rf-c02-3.diff',
+   'independent refactoring: Verification side of the property ("the result verifies"): ConcatenationProof::preliminary_verify / verify / batch_verify. (a) The computation of the signed message `msg || merkle commitment` is moved from the callee preliminary_verify to its two callers: the private function now takes `message_with')
+BP('C02', 'rf-c02-4', 'rf-c02-4.diff',
+   'independent refactoring: Lottery evaluation on both sides of the completeness half of the property ("every signature produced by a registered signer verifies"). Signing side, ConcatenationProofSigner (signer.rs): check_lottery\'s `for index in 0..m { if is_lottery_won(..) { indices.push(index) } }` becomes `(0..m).filter(|&i')
+BP('C03', 'rf-c03-1', 'rf-c03-1.diff',
+   'independent refactoring: MithrilCertificateVerifier::verify_standard_certificate_integrity (the per-certificate checks: standard-signature guard, self-loop, hash, signed message, multi-signature, epoch): the `match .. => Ok/Err }?` signature extraction becomes a let-else with an early return; the one-line private helper ver')
+BP('C03', 'rf-c03-2', 'rf-c03-2.diff',
+   'independent refactoring: Link checks between a standard certificate and its predecessor. verify_epoch_chaining: the rejecting condition `has_gap_with(prev) || prev.epoch > cert.epoch` with early `return Err` is rewritten (De Morgan + flipped comparison + named booleans) as an accepting condition `epochs_are_contiguous && pr')
+BP('C03', 'rf-c03-3', 'rf-c03-3.diff',
+   "independent refactoring: Aggregate-verification-key and protocol-parameters chaining (same epoch: equal to the predecessor's; next epoch: equal to what the predecessor's signed protocol message commits to). The three duplicated `previous_certificate.epoch == certificate.epoch` computations go to a new private free function ")
+BP('C03', 'rf-c03-4', 'rf-c03-4.diff',
+   'independent refactoring: Chain-walk driver. CertificateVerifier::verify_certificate_chain (default trait method): `while let Some(prev) = self.verify_certificate(&certificate).await? { certificate = prev } Ok(())` becomes an explicit `loop { match self.verify_certificate(&current_certificate).await? { Some(prev) => current_')
+BP('C07', 'rf-c07-1', 'rf-c07-1.diff',
+   'independent refactoring: KesVerifierStandard::verify (mithril-common/src/crypto_helper/cardano/kes/verifier_standard.rs): the computation of the accepted KES-evolutions window (announced value +/- 1, capped at 64) is extracted into a new private associated function `accepted_kes_evolutions_window` returning a RangeInclusive')
+BP('C07', 'rf-c07-2', 'rf-c07-2.diff',
+   'independent refactoring: OpCert (mithril-common/src/crypto_helper/cardano/opcert.rs): `validate` is rewritten from `if cold_vk.verify(..).is_ok() { return Ok(()) } Err(OpCertInvalid)` to a destructuring of `opcert_without_vk`, an intermediate `signed_message` local and `cold_vk.verify(&signed_message, cert_sig).map_err(|_| ')
+BP('C07', 'rf-c07-3', 'rf-c07-3.diff',
+   'independent refactoring: KeyRegWrapper::register (mithril-common/src/crypto_helper/cardano/key_certification.rs) is split: the branch handling a provided operational certificate (KES period presence check, KES signature verification for the Concatenation key, and for the SNARK key under `future_snark`, then pool id derivati')
+BP('C07', 'rf-c07-4', 'rf-c07-4.diff',
+   'independent refactoring: MithrilSignerRegistrationVerifier::verify (mithril-aggregator/src/services/signer_registration/verifier.rs): the computation of the KES evolutions (current chain KES period minus the opcert start KES period, None without opcert) is extracted into a new private async method `compute_kes_evolutions(&s')
+BP('C10', 'rf-c10-1', 'rf-c10-1.diff',
+   'independent refactoring: InternalArtifactProver::verify_cardano_database: the accept/reject decision is rewritten. The `if let Ok(ref merkle_proof) = proof_result && missing.is_empty() && tampered.is_empty() && non_verifiable.is_empty() { verify; return Ok(clone) }` let-chain with early return, followed by the fall-through ')
+BP('C10', 'rf-c10-2', 'rf-c10-2.diff',
+   'independent refactoring: VerifiedDigests::list_immutable_files_not_verified (the check that each computed digest is the digest certified for that very file name): the lookup + comparison is extracted into a new private method `VerifiedDigests::is_verified_digest_of(&self, immutable_file_name, digest) -> Option<bool>` (`self')
+BP('C10', 'rf-c10-3', 'rf-c10-3.diff',
+   'independent refactoring: InternalArtifactProver::download_and_verify_digests (download of the served digest list and check that it reproduces the Merkle root signed in the certificate) is split in two private steps that it now just chains: `download_digests(&self, &DigestsMessagePart)` (temp dir clean-up, download_unpack_di')
+BP('C10', 'rf-c10-4', 'rf-c10-4.diff',
+   'independent refactoring: Presence check of the immutable files of the requested range. InternalArtifactProver::list_missing_immutable_files: the two nested `for` loops pushing into a `mut Vec` are rewritten as an iterator chain `range.clone().flat_map(Self::immutable_trio_file_names).filter(|name| !immutable_dir.join(name).')
+BP('C11', 'rf-c11-1', 'rf-c11-1.diff',
+   'independent refactoring: Legacy transaction proofs: CardanoTransactionsProofsMessage::verify is split. The per-set-proof work (decode the message part, verify the Merkle map proof and membership of every transaction hash, compute the hex Merkle root) is extracted into a new private associated function `verify_set_proof` ret')
+BP('C11', 'rf-c11-2', 'rf-c11-2.diff',
+   'independent refactoring: Merkle map proof (the proof object behind both proof formats): MKMapProof::verify is split into two new private methods. `verify_sub_proofs` performs the recursive verification of each sub proof (for loop with `?` rewritten as `iter().try_for_each`), and `verify_sub_proofs_are_leaves_of_master_proof')
+BP('C11', 'rf-c11-3', 'rf-c11-3.diff',
+   'independent refactoring: V2 (blocks / transactions) proof verification in mithril-common. (1) ProofMessageVerifier: the private helper `proof_message_into_entity` is inlined into `verify`; `?` on the conversion becomes a `match` with early `return Err(MalformedData(subject, source))`, and `.verify().map_err(..)?; Ok(root)` ')
+BP('C11', 'rf-c11-4', 'rf-c11-4.diff',
+   "independent refactoring: mithril-client MessageBuilder (recomputation of the protocol message that is compared with the certificate's signed message). (1) `compute_cardano_blocks_proofs_message` and `compute_cardano_transactions_proofs_v2_message` had two copies of the same body; it is extracted into one new private associa")
+BP('C12', 'rf-c12-1', 'rf-c12-1.diff',
+   "independent refactoring: ImmutableFile listing clean-up in entities/immutable_file.rs: `list_all_in_dir` now uses let-else for the missing 'immutable' folder and builds the file list with an iterator chain `.map(ImmutableFile::new).collect::<Result<Vec<_>,_>>()?` instead of a push-in-a-for-loop, then sorts it (local renamed")
+BP('C12', 'rf-c12-2', 'rf-c12-2.diff',
+   "independent refactoring: In digesters/cardano_immutable_digester.rs, `list_immutable_files_to_process` (the beacon filter + 'covered file missing' check used by `compute_merkle_tree`) no longer duplicates the list/filter pipeline: it delegates to the existing sibling `list_immutable_files_to_process_for_range` with the rang")
+BP('C12', 'rf-c12-3', 'rf-c12-3.diff',
+   'independent refactoring: Cache interaction of `CardanoImmutableDigester` (digesters/cardano_immutable_digester.rs) reshaped: the `self.update_cache(&computed).await` step that both `compute_merkle_tree` and `compute_digests_for_range` performed right after `process_immutables(..).await?` is moved into the callee, which is r')
+BP('C12', 'rf-c12-4', 'rf-c12-4.diff',
+   'independent refactoring: Digest data flow from per-file hash to Merkle leaves reshaped. In digesters/immutable_digester.rs, `ComputedImmutablesDigests::compute_immutables_digests` turns `match cache { None => .., Some(d) => d }` into `if let Some(digest) = cached_digest { digest } else { .. }`, extracts the `hex::encode(ent')
+BP('C14', 'rf-c14-1', 'rf-c14-1.diff',
+   'independent refactoring: Split MithrilCertifierService::create_certificate into steps. (a) The open-message lookup plus the NotFound / AlreadyCertified / Expired guards are moved into a new private async helper get_certifiable_open_message_record (the guards now read is_certified / is_expired from the record instead of from')
+BP('C14', 'rf-c14-2', 'rf-c14-2.diff',
+   'independent refactoring: Restructured MithrilCertifierService::verify_certificate_chain (the epoch-gap / chain validity gate run by the state machine before leaving IDLE). The nested `if let Some(certificate) = ...first() { if gap { return Err } verify; Ok(()) } else { Err(NoGenesis) }` becomes a flat function: fetch the la')
+BP('C14', 'rf-c14-3', 'rf-c14-3.diff',
+   'independent refactoring: Aggregator state machine, IDLE transition (where the aggregator stops certifying on an epoch gap / missing genesis / genesis epoch). (a) AggregatorRuntime::transition_from_idle: the invalid-chain branch is extracted into a new private method transition_from_idle_with_invalid_chain (called with early')
+BP('C14', 'rf-c14-4', 'rf-c14-4.diff',
+   'independent refactoring: mithril-aggregator MultiSignerImpl (quorum / single signature validity engine used by the certifier). (a) create_multi_signature: the nested `match aggregate_single_signatures(..) { Ok(x) => Ok(Some(x)), Err(err) => match err.downcast_ref() { Some(NotEnoughSignatures(a, e)) => { warn; Ok(None) } _ =')
+BP('C16', 'rf-c16-1', 'rf-c16-1.diff',
+   "independent refactoring: mithril-common protocol::MultiSigner::verify_single_signature: the lookup of the (verification key, stake) registered at the signature's signer index and the check that this key is the one registered by the claimed party_id are extracted from verify_single_signature into a new private method find_re")
+BP('C16', 'rf-c16-2', 'rf-c16-2.diff',
+   'independent refactoring: mithril-common protocol::SignerBuilder::new: the party_id -> registered verification key map (the data the MultiSigner uses to bind a single signature to the party it is attributed to) is no longer built by a separate `registered_signers.iter().map(..).collect()` chain after closing the key registra')
+BP('C16', 'rf-c16-3', 'rf-c16-3.diff',
+   'independent refactoring: mithril-aggregator MithrilCertifierService::register_single_signature (the single sink used by the HTTP route, the buffered certifier and the DMQ signature processor): the three gate checks that precede the database write - open message already certified, open message expired, and multi_signer.verif')
+BP('C16', 'rf-c16-4', 'rf-c16-4.diff',
+   'independent refactoring: mithril-aggregator MithrilCertifierService::create_certificate: the computation of the signer list published in the certificate metadata is extracted into a new private associated function select_signers_of_open_message(open_message: &OpenMessage, registered_signers: &[SignerWithStake]) -> Vec<Signe')
+BP('C18', 'rf-c18-1', 'rf-c18-1.diff',
+   'independent refactoring: ResourcePool::give_back_resource: the two early-return admission guards (pool full, stale discriminant) are extracted into a new private helper `can_admit_resource(&self, resources_count, discriminant) -> StdResult<bool>`; the caller now pushes the resource and notifies the condvar inside a single `')
+BP('C18', 'rf-c18-2', 'rf-c18-2.diff',
+   "independent refactoring: The two implicit/explicit 'give back a pool item' paths (ResourcePool::give_back_resource_pool_item and the Drop impl of ResourcePoolItem) each contained their own `take().map(|resource| pool.give_back_resource(resource, discriminant))` expression. Both are now routed through one new private method ")
+BP('C18', 'rf-c18-3', 'rf-c18-3.diff',
+   'independent refactoring: ResourcePool::acquire_resource: the `while resources.is_empty() { wait; timeout check; re-bind guard }` loop followed by `resources.pop_front().unwrap()` is rewritten as a `loop` that first tries `if let Some((discriminant, resource)) = resources.pop_front() { return Ok(ResourcePoolItem { .. }) }` a')
+BP('C18', 'rf-c18-4', 'rf-c18-4.diff',
+   'independent refactoring: The cache refresh sequence at the end of `compute_cache` (bump the pool discriminant, drain the pool, refill it with the freshly computed Merkle maps) is extracted, in both MithrilProverService (services/prover.rs) and LegacyMithrilProverService (services/prover_legacy.rs), from the async trait meth')
